@@ -129,6 +129,23 @@ def r05_1(rep, M, T, rid):
                               "system is returned as the mirror image of the input", f"matid/data/symmetry_data.py (group {g}, entry {i})")
 
 
+def _gs_fed_by_memo(M):
+    """every call of _find_wyckoff_ground_state passes, as the system, a local whose only definitions are self._get_spglib_conventional_system()"""
+    n = 0
+    for f in [x for x in M.cls(SA).body if isinstance(x, ast.FunctionDef)]:
+        for c in ast.walk(f):
+            if isinstance(c, ast.Call) and isinstance(c.func, ast.Attribute) and c.func.attr == "_find_wyckoff_ground_state":
+                b = M.bind_args(GS, c) if hasattr(M, "bind_args") else None
+                a = (b or {}).get(M.params(GS)[2]) if b else (c.args[2] if len(c.args) > 2 else None)
+                if not isinstance(a, ast.Name):
+                    return False
+                defs = [s.value for s in ast.walk(f) if isinstance(s, ast.Assign) and any(isinstance(t, ast.Name) and t.id == a.id for t in s.targets)]
+                if not defs or any(norm(d) != "self._get_spglib_conventional_system()" for d in defs):
+                    return False
+                n += 1
+    return n > 0
+
+
 def r05_3(rep, M, rid, strict=True, T=None):
     fn = M.func(GS)
     fl = Flow(fn)
@@ -281,6 +298,9 @@ def r05_3(rep, M, rid, strict=True, T=None):
     rdef = env.get(recv.id) if isinstance(recv, ast.Name) else None
     if rdef is not None and norm(rdef) == f"{M.params(GS)[2]}.copy()":
         rep.ok(rid, "the transformed positions are set on a copy of the standardised system (lattice, species, atom count unchanged)")
+    elif rdef is not None and norm(rdef) == M.params(GS)[2] and _gs_fed_by_memo(M) and SR.memo_read_once(M, "_get_spglib_conventional_system", "get_conventional_system"):
+        rep.ok(rid, "the transformed positions are set on the standardised system itself: it is the memo of _get_spglib_conventional_system, whose only reader is the "
+                    "memo-guarded get_conventional_system, so the in-place change is not observable (lattice, species, atom count unchanged)")
     else:
         rep.violation(rid, "target of the transformed positions", f"`{norm(recv)}` is not a copy of the standardised system", M.where(GS, setc[0]))
     # standardisation source
